@@ -194,6 +194,10 @@ func other(tag int) interface{} {
 		return l
 	case 32:
 		return [1000]byte{1}
+	case 33: // a list of strings with capitals (in-place lower-casing would show)
+		return []string{"Admin", "ROOT", "Ops"}
+	case 34:
+		return []interface{}{"Admin", "ROOT", 3, map[string]interface{}{"K": "V"}}
 	}
 	return struct{}{}
 }
@@ -479,12 +483,21 @@ func errClass(err error) string {
 	return "other"
 }
 
-func dbgClass(err error) string {
+func dbgClass(err error) (cls string) {
 	if err == nil {
 		return "nil"
 	}
+	// a non-nil error value must be usable: a typed nil pointer or a panicking Original() is a class of its own
+	defer func() {
+		if r := recover(); r != nil {
+			cls = "broken"
+		}
+	}()
 	var orig error = err
 	if ne, ok := err.(*parser.NestedError); ok {
+		if ne == nil {
+			return "typednil"
+		}
 		orig = ne.Original()
 	} else {
 		return "foreign"
